@@ -151,6 +151,11 @@ def conjuncts(t):
         for v in t.values:
             out.extend(conjuncts(v))
         return out
+    # `x not in (a, b)` is `x != a and x != b`
+    if isinstance(t, ast.Compare) and len(t.ops) == 1 and isinstance(t.ops[0], ast.NotIn) \
+            and isinstance(t.comparators[0], (ast.Tuple, ast.List, ast.Set)) and 1 <= len(t.comparators[0].elts) <= 4 \
+            and not any(isinstance(e, ast.Starred) for e in t.comparators[0].elts):
+        return [ast.Compare(left=clone(t.left), ops=[ast.NotEq()], comparators=[clone(e)]) for e in t.comparators[0].elts]
     return [t]
 
 
